@@ -182,6 +182,12 @@ class _NS:
 # the largest magnitude among the bounds is the *lower* bound of an internal reaction that is written backwards
 AL_RXNS = [("EX_1", (-30.0, 20.0), True), ("I_1", (-10.0, 10.0), False), ("I_2", (0.0, 5.0), False), ("I_3", (-70.0, 0.0), False), ("EX_2", (0.0, 40.0), True), ("I_4", (-3.0, 25.0), False)]
 AL_ROWS = [[1.0, -1.0, 0.0, 2.5], [0.0, 1e-12, 3.0, -1.0], [-0.5, 0.0, 0.0, 0.0]]
+AL_ROWS_EDITED = [[1.0, 1.0, 0.0, -2.5], [0.0, 2.0, 3.0, 0.0]]   # the same reactions after an edit of one stoichiometry
+
+
+class _AMet:
+    def __init__(self, mid):
+        self.id = mid
 
 
 def check_add_loopless(ctx, rule: str) -> None:
@@ -197,16 +203,20 @@ def check_add_loopless(ctx, rule: str) -> None:
         rxns.append(r)
     model = ModelLP(rxns, {"I_1": 1.0})
     model.tolerance = 1e-9
+    # the stoichiometry is represented by the basis of its null space: `state["rows"]` is what the network has *now*
+    state = {"rows": AL_ROWS}
+    model.metabolites = [_AMet("m1"), _AMet("m2"), _AMet("m3")]
     stubs = {
         "cobra.util.array.create_stoichiometric_matrix": lambda it, ev, c, a, k: _Mat(),
-        "cobra.util.array.nullspace": lambda it, ev, c, a, k: _NS(AL_ROWS),
+        "cobra.util.array.nullspace": lambda it, ev, c, a, k: _NS(state["rows"]),
         "cobra.util.create_stoichiometric_matrix": lambda it, ev, c, a, k: _Mat(),
-        "cobra.util.nullspace": lambda it, ev, c, a, k: _NS(AL_ROWS),
+        "cobra.util.nullspace": lambda it, ev, c, a, k: _NS(state["rows"]),
     }
+    cons0, vars0 = list(model.solver.constraints.items), list(model.solver.variables.items)
     from ..interp import EXTERNAL
 
     EXTERNAL.setdefault("numpy.array", lambda x, **k: list(x))
-    it = Interp(prog, NATIVE + (_Mat, _NS), ["cobra.flux_analysis.helpers.normalize_cutoff", "cobra.flux_analysis.loopless.add_loopless"], stubs, globals_={"Zero": Lin()})
+    it = Interp(prog, NATIVE + (_Mat, _NS, _AMet), ["cobra.flux_analysis.helpers.normalize_cutoff", "cobra.flux_analysis.loopless.add_loopless"], stubs, globals_={"Zero": Lin()})
     try:
         _run("add_loopless", lambda: it.call(fn, [model], {}))
     except EvalRaise as exc:
@@ -277,6 +287,27 @@ def check_add_loopless(ctx, rule: str) -> None:
             problems.append(f"the null-space constraints are {rows_found}; expected one row per basis vector over the driving forces of the internal reactions in their own order, entries below the cut-off dropped: {want_rows}")
     if model.solver.objective.name != "original_objective":
         problems.append("add_loopless replaces the objective")
+    if not problems:
+        # the same model object again after its stoichiometry was edited (identifiers unchanged): the null-space
+        # constraints must be those of the network as it is now
+        model.solver.constraints.items[:] = cons0
+        model.solver.variables.items[:] = vars0
+        state["rows"] = AL_ROWS_EDITED
+        try:
+            _run("add_loopless (second call on the same model after an edit of the stoichiometry)", lambda: it.call(fn, [model], {}))
+        except EvalRaise as exc:
+            problems.append(f"a second add_loopless on the same model raises {exc.exc_type}")
+        else:
+            rows2 = []
+            dg_names = {f"delta_g_{rid}" for rid in internal}
+            for c in model.solver.constraints.items:
+                t = {v.name: round(k, 12) for v, k in c.expression.terms.items()}
+                if t and set(t) <= dg_names and (c.lb, c.ub) == (0, 0):
+                    rows2.append(t)
+            want2 = [{f"delta_g_{rid}": round(w, 12) for rid, w in zip(internal, row) if abs(w) > 1e-9} for row in AL_ROWS_EDITED]
+            key2 = lambda d: sorted(d.items())
+            if sorted(map(key2, rows2)) != sorted(map(key2, [w for w in want2 if w])):
+                problems.append(f"after the stoichiometry of an internal reaction was edited (identifiers unchanged), a second add_loopless on the same model builds the null-space constraints {rows2}; the network now has {want2}: cycles of the edited network are not forbidden")
     if problems:
         ctx.bad(rule, fn, "add_loopless formulation", "; ".join(problems[:2]))
     else:
